@@ -211,6 +211,27 @@ func (e *engine) runHistory(ops []op, gen string) {
 				continue
 			}
 			started = true
+			// requests for links arrive both BEFORE the transport is constructed (the early filter in
+			// resolveEstablishLink cannot apply yet) and after it is up
+			addObservers := func(srcs []int) {
+				for _, src := range srcs {
+					for _, dst := range []int{1, 2, 3} {
+						ob := &observer{vals: map[uint32]link.MountedLink{}, src: src, dst: dst}
+						_, ref, err := tb.Bus.AddDirective(link.NewEstablishLinkWithPeer(peerOf(src), peerOf(dst)), ob)
+						if err != nil {
+							panic(err)
+						}
+						ob.ref = ref
+						observers = append(observers, ob)
+					}
+				}
+			}
+			early := []int{0, 1, 2}
+			late := []int{0, 1, 2}
+			if e.rng.Intn(2) == 0 {
+				early, late = []int{2}, []int{0, 1}
+			}
+			addObservers(early)
 			var cctx context.Context
 			cctx, ctrlCancel = context.WithCancel(ctx)
 			ctrlDone = make(chan struct{})
@@ -226,18 +247,7 @@ func (e *engine) runHistory(ops []op, gen string) {
 			if _, err := ctrl.GetTransport(ctx); err != nil {
 				panic(err)
 			}
-			// observers hold references for every (src, dst) pair, as users wanting links do
-			for _, src := range []int{0, 1, 2} {
-				for _, dst := range []int{1, 2, 3} {
-					ob := &observer{vals: map[uint32]link.MountedLink{}, src: src, dst: dst}
-					_, ref, err := tb.Bus.AddDirective(link.NewEstablishLinkWithPeer(peerOf(src), peerOf(dst)), ob)
-					if err != nil {
-						panic(err)
-					}
-					ob.ref = ref
-					observers = append(observers, ob)
-				}
-			}
+			addObservers(late)
 		case "shutdown":
 			if ctrlCancel != nil {
 				ctrlCancel()
